@@ -126,7 +126,7 @@ func main() {
 	// random corpus schema sets for the codec engines (compilable flavour)
 	for k := 0; k < *nRandom; k++ {
 		tape := simhook.NewSearchTape(simhook.Mix(*seed, uint64(k), simhook.HashString("rndcorpus")))
-		set := shapesdesc.RandomSet(tape, shapesdesc.RandomOpts{Tag: fmt.Sprintf("s%d", k)})
+		set := shapesdesc.RandomSet(tape, shapesdesc.RandomOpts{Tag: fmt.Sprintf("s%d", k), CrossPackage: k%2 == 1})
 		all := append(append([]*descriptorpb.FileDescriptorProto{}, deps...), set...)
 		if _, err := protodesc.NewFiles(&descriptorpb.FileDescriptorSet{File: all}); err != nil {
 			fmt.Fprintln(os.Stderr, "reqgen: random corpus set invalid (harness bug):", err)
